@@ -198,6 +198,10 @@ def augment_generated(rng: random.Random, spec: dict) -> T.Tuple[T.Dict[str, str
                 args.append(f'-D{sub}:str=sub-set')
             if 'snum' in snames and rng.random() < 0.4:
                 args.append(f'-D{sub}:snum=9')
+            if 'sflag' in snames and rng.random() < 0.5:
+                args.append(f'-D{sub}:sflag=true')
+            if 'noparent' in snames and rng.random() < 0.3:
+                args.append(f'-D{sub}:noparent=given')
         r = rng.random()
         if r < 0.2:
             args.append(f'-D{sub}:default_library=static')
@@ -461,20 +465,20 @@ def lean_parse_manifests(texts: T.List[str]) -> T.Optional[T.List[T.Optional[T.L
         return None
     try:
         answers = common.run_driver('ninja', ['parse ' + enc(t) for t in texts])
-    except Exception:
+        out: T.List[T.Optional[T.List[dict]]] = []
+        for a in answers:
+            if not a.startswith('OK|'):
+                out.append(None)
+                continue
+            edges = []
+            for part in a.split('|'):
+                if part.startswith('E:'):
+                    f = part[2:].split(';')
+                    edges.append({'rule': common.dec(f[0]), 'outs': common.dec_list(f[1]), 'ins': common.dec_list(f[3])})
+            out.append(edges)
+        return out
+    except Exception:   # the Ninja area belongs to C04 and may be mid-change: fall back to the Python reader
         return None
-    out: T.List[T.Optional[T.List[dict]]] = []
-    for a in answers:
-        if not a.startswith('OK|'):
-            out.append(None)
-            continue
-        edges = []
-        for part in a.split('|'):
-            if part.startswith('E:'):
-                f = part[2:].split(';')
-                edges.append({'rule': common.dec(f[0]), 'outs': common.dec_list(f[1]), 'ins': common.dec_list(f[3])})
-        out.append(edges)
-    return out
 
 
 # ------------------------------------------------------------------------------------------------ the independent oracle
@@ -569,10 +573,13 @@ def oracle_targets(raw: dict) -> dict:
         for f in files:
             if not any(f in s['outs'] for s in cands):
                 ok_files = False
-                if kind == 'p' and any(os.path.basename(f) in [os.path.relpath(o, bld) for o in s['outs']] for s in cands):
-                    viol.append(('targets:run-or-alias-target-in-subdir:filename-is-not-the-build-output',
-                                 f"{t['type']} target {t['name']!r} reports filename {os.path.relpath(f, bld)!r}; build.ninja's statement "
-                                 f"for it has the output {os.path.basename(f)!r}", {'target': t['id'], 'filename': files}))
+                if kind == 'p':
+                    # a run / alias target makes no file; its statement is `build <name>: phony …` (`<subproject>@@<name>` in a subproject)
+                    names = [os.path.relpath(o, bld) for st in cands for o in st['outs']
+                             if os.path.relpath(o, bld).split('@@')[-1] == os.path.basename(f)]
+                    viol.append(('targets:run-or-alias-target:filename-is-not-a-build-output',
+                                 f"{t['type']} target {t['name']!r} reports filename {os.path.relpath(f, bld)!r}; no statement of build.ninja has that "
+                                 f"output (the target's phony statement is named {names})", {'target': t['id'], 'filename': files}))
                 else:
                     viol.append((f'targets:filename-not-produced:{kind}', f"target {t['id']!r}: no build statement produces {os.path.relpath(f, bld)!r}",
                                  {'target': t['id'], 'filename': files}))
@@ -607,15 +614,28 @@ def oracle_targets(raw: dict) -> dict:
             consumed = reported
         if consumed != reported:
             ok_src = False
-            key = 'targets:sources-differ:' + ('compile' if kind == 'b' else 'custom' if kind == 'c' else 'phony')
-            if kind == 'c' and consumed - reported and all('/meson-out/' in x for x in consumed - reported) and \
-                    sorted(os.path.basename(x) for x in consumed - reported) == sorted(os.path.basename(x) for x in reported - consumed):
-                key = 'targets:custom-target-sources:input-target-path-ignores-flat-layout'
-            elif kind == 'c' and consumed - reported and not (reported - consumed):
-                key = 'targets:custom-target-sources:input-dropped'
-            viol.append((key, f"target {t['id']!r}: statements consume {sorted(os.path.relpath(x, bld) for x in consumed - reported)} not reported, "
-                         f"reported but not consumed {sorted(os.path.relpath(x, bld) for x in reported - consumed)}",
-                         {'target': t['id'], 'reported': sorted(reported), 'consumed': sorted(consumed)}))
+            extra_c = set(consumed - reported)
+            extra_r = set(reported - consumed)
+            keys = []
+            if kind == 'c':
+                for r_ in sorted(extra_r):
+                    c_ = os.path.join(bld, 'meson-out', os.path.basename(r_))
+                    if c_ in extra_c:
+                        extra_c.discard(c_)
+                        extra_r.discard(r_)
+                        if 'targets:custom-target-sources:input-target-path-ignores-flat-layout' not in keys:
+                            keys.append('targets:custom-target-sources:input-target-path-ignores-flat-layout')
+                dropped_built = {x for x in extra_c if x.startswith(bld + os.sep)}
+                if dropped_built and not extra_r:
+                    # inputs that are outputs of other targets / of a generator (CustomTargetIndex, GeneratedList)
+                    keys.append('targets:custom-target-sources:built-input-dropped')
+                    extra_c -= dropped_built
+            if extra_c or extra_r:
+                keys.append('targets:sources-differ:' + ('compile' if kind == 'b' else 'custom' if kind == 'c' else 'phony'))
+            for key in keys:
+                viol.append((key, f"target {t['id']!r} ({t['type']}): its statements consume {sorted(os.path.relpath(x, bld) for x in consumed - reported)} which "
+                             f"target_sources omits; target_sources lists {sorted(os.path.relpath(x, bld) for x in reported - consumed)} which no statement of the target consumes",
+                             {'target': t['id'], 'reported': sorted(reported), 'consumed': sorted(consumed)}))
         per.append(('1' if ok_files else '0') + ('1' if ok_src else '0'))
     claimed = True
     for s in stmts:
@@ -741,7 +761,7 @@ def oracle_install(raw: dict) -> dict:
             same = [p for p in plan if p[1] == r['path'] and p[0] == (r['dtype'] or SECTION[r['kind']])]
             dup = [q for q in prs if q['path'] == r['path'] and q['kind'] == r['kind'] and q is not r]
             if same and dup:
-                viol.append((f"install_plan:source-installed-twice-listed-once:{SECTION[r['kind']]}",
+                viol.append(('install_plan:source-installed-twice-listed-once',
                              f"{r['path']!r} is installed to {dest_used(prefix, r)!r} and to {[dest_used(prefix, q) for q in dup]}; "
                              f"intro-install_plan.json (keyed by source path) names only {same[0][2]['destination']!r}",
                              {'record': r, 'plan_entry': same[0][2]}))
@@ -771,7 +791,7 @@ def oracle_install(raw: dict) -> dict:
             dup = [q for q in irs if q['path'] == r['path'] and q is not r] if r['kind'] != 'l' else \
                   [q for q in irs if os.path.basename(q['path']) == os.path.basename(r['path']) and q is not r]
             if dup:
-                viol.append((f"installed:source-installed-twice-listed-once:{'symlinks' if r['kind'] == 'l' else SECTION[r['kind']]}",
+                viol.append(('installed:source-installed-twice-listed-once',
                              f"{r['path']!r} -> {dest_used(prefix, r)!r} is installed; intro-installed.json (keyed by source) has only "
                              f"{raw['installed'].get(os.path.basename(r['path']) if r['kind'] == 'l' else r['path'])!r}", {'record': r}))
             else:
@@ -845,7 +865,7 @@ CORPUS_VARIANTS: T.Dict[str, T.List[T.Tuple[str, T.List[str], bool]]] = {
     'instdup': [('default', [], False)],
     'tests': [('default', [], False), ('flat', ['--layout=flat'], False), ('static', ['-Ddefault_library=static', '-Dbuildtype=release'], True)],
     'opts': [('default', [], False), ('yield-parent-set', ['-Dc=c'], False),
-             ('many', ['-Dstr=x y', '-Dflag=false', '-Dnum=10', '-Darr=q', '-Darrc=one,three', '-Dfeat=disabled', '-Dosp:sopt=cmdline', '-Dwerror=true',
+             ('many', ['-Dstr=x y', '-Dflag=false', '-Dnum=10', '-Darr=q', '-Darrc=one,three', '-Dfeat=disabled', '-Dosp:sopt=cmdline', '-Dosp2:flag=true', '-Dosp:sfeat=enabled', '-Dosp:noparent=np', '-Dwerror=true',
                        '-Dc_args=-DA,-DB'], False),
              ('sub-builtin', ['-Dosp2:warning_level=0', '-Dosp:default_library=static', '-Dystr=p2', '-Dybool=true', '-Dyint=4'], True)],
     'gens': [('default', [], False), ('unity', ['-Dunity=on'], False), ('unity2', ['-Dunity=on', '-Dunity_size=2', '--layout=flat'], False),
@@ -870,7 +890,7 @@ def make_jobs(ctx: Ctx) -> T.List[dict]:
         for label, args, native in variants:
             jobs.append({'id': f'corpus-{name}-{label}', 'kind': 'corpus', 'name': name, 'label': label, 'args': args, 'native': native,
                          'files': files, 'emptydirs': empt})
-    n_gen = ctx.scale(14, 120)
+    n_gen = ctx.scale(24, 130)
     matrix = projgen.option_matrix()
     scratch = common.scratch_dir('mverif-c15-gen-')
     try:
@@ -1055,21 +1075,31 @@ def search(ctx: Ctx, disagreements: T.List[dict]) -> None:
 
 
 def replay(ctx: Ctx, rep: dict) -> None:
+    """re-run the recorded project(s) with the recorded arguments; both evaluations are repeated"""
     ctx.extra.setdefault('programs', 0)
     ctx.extra.setdefault('disagreements_checked', 0)
-    case = rep.get('case', rep)
-    inp = case.get('input', case)
-    if inp.get('kind') == 'corpus':
-        files, empt = corpus_files(inp['project'])
-        job = {'id': 'replay', 'kind': 'corpus', 'name': inp['project'], 'label': 'replay', 'files': files, 'emptydirs': empt}
-    else:
-        files = case.get('files') or rep.get('files')
-        job = {'id': 'replay', 'kind': 'gen', 'seed': None, 'features': None, 'label': 'replay', 'files': files}
-    args = list(inp.get('setup_args', []))
-    job['native'] = '--native-file' in args
-    if job['native']:
-        k = args.index('--native-file')
-        del args[k:k + 2]
-    job['args'] = args
-    results = run_jobs([job])
-    evaluate(ctx, results, {'replay': job})
+    cases = [rep.get('case', rep)]
+    if rep.get('correspondence_disagreements'):
+        cases = list(rep['correspondence_disagreements'])
+    jobs = []
+    for n, case in enumerate(cases):
+        inp = case.get('input', case)
+        if 'setup_args' not in inp:
+            continue
+        if inp.get('kind') == 'corpus':
+            files, empt = corpus_files(inp['project'])
+            job = {'id': f'replay{n}', 'kind': 'corpus', 'name': inp['project'], 'label': 'replay', 'files': files, 'emptydirs': empt}
+        else:
+            files = case.get('files') or inp.get('files') or rep.get('files')
+            if not files:
+                continue
+            job = {'id': f'replay{n}', 'kind': 'gen', 'seed': None, 'features': None, 'label': 'replay', 'files': files}
+        args = list(inp.get('setup_args', []))
+        job['native'] = '--native-file' in args
+        if job['native']:
+            k = args.index('--native-file')
+            del args[k:k + 2]
+        job['args'] = args
+        jobs.append(job)
+    results = run_jobs(jobs)
+    evaluate(ctx, results, {j['id']: j for j in jobs})
